@@ -46,7 +46,7 @@ PROPS = {
     "C02": hist(1500, 200, 20000, 400, small_enum=True, assumptions=[LIN_ASSUME, PROTO_ASSUME]),
     "C03": hist(2000, 200, 20000, 400, small_enum=True, fuzz=400000, assumptions=[RFC_ASSUME, LIN_ASSUME, PROTO_ASSUME]),
     "C04": hist(2000, 200, 20000, 400, small_enum=True, fuzz=400000, assumptions=[RFC_ASSUME, PROTO_ASSUME]),
-    "C06": hist(1500, 200, 30000, 400, assumptions=[RFC_ASSUME, LIN_ASSUME]),
+    "C06": hist(1500, 200, 30000, 400, small_enum=True, fuzz=400000, assumptions=[RFC_ASSUME, LIN_ASSUME]),
     "C07": hist(2000, 200, 30000, 400, small_enum=True, fuzz=1000000, memory=True, assumptions=[PROTO_ASSUME, "uninitialised reads are not observed (no MSan runtime for libstdc++ here)"]),
     "C08": hist(2500, 200, 30000, 400, small_enum=True, fuzz=400000, memory=True, assumptions=[PROTO_ASSUME, "the application fetches the source table before release and frees decoded source symbols, callback buffers and NULL-slot repair symbols, as the API documents"]),
     "C05": hist(300, 200, 4000, 400, assumptions=[RFC_ASSUME, "session-matrix and constructor observations use an optional white-box probe (harness/probe_ldpc.c); without it only the black-box encoder observation remains"]),
